@@ -265,9 +265,10 @@ async def run_local(case):
         await (a if e == 0 else b).emit(v, metadata=[{'ref': ref}])
         got.after_emit.append(len(got))
     n = -1
-    while n != len(got):            # buffers drain on the loop: wait until nothing more arrives
+    quiet = 0.05 + 3 * max([op[1] for op in case['ops'] if op[0] == 'rate_limit'] or [0])
+    while n != len(got):            # buffers drain on the loop: wait until nothing more arrives (a rate limiter paces them)
         n = len(got)
-        await asyncio.sleep(0.05)
+        await asyncio.sleep(quiet)
     return got, refs
 
 
